@@ -6,7 +6,7 @@
     and the ranges tile 1..total (C08). *)
 From Coq Require Import Permutation.
 From LP Require Import Proofs.Tactics Proofs.Loop Proofs.Resume Proofs.FisherYates Proofs.Shuffle Proofs.Rng Proofs.Select
-  Proofs.Frames Proofs.Settle Proofs.Filter Proofs.Guaranteed Proofs.Resume2 Proofs.GuaranteedLoop Proofs.Ledger Proofs.ClaimLedger
+  Proofs.Frames Proofs.Settle Proofs.Filter Proofs.Guaranteed Proofs.Nft Proofs.Resume2 Proofs.Resume3 Proofs.Resume4 Proofs.GuaranteedLoop Proofs.Ledger Proofs.ClaimLedger
   Proofs.Leftover Proofs.Partition Proofs.Examples.
 Open Scope N_scope.
 
@@ -366,6 +366,168 @@ Proof.
   split; [|split; [exact Hres|split; [exact Hhon|exact Hmono]]].
   rewrite (distribute_multi_resume H v2 _ _ _ _ _ Had) in Ed.
   destruct (distribute_only v2 _ _ _ _ Hop Ed) as ((f & g & u & cp & nw & Hs3) & Hb3).
+  destruct Hres as (Hc3 & Hn3 & Hcp3 & Hl3).
+  apply ClaimInv_from_layout.
+  - eapply PayInv_frame; [exact Hpay| | rewrite Hs3; reflexivity | intros a; rewrite Hs3; reflexivity].
+    rewrite Hb3, Hs3. reflexivity.
+  - rewrite Hs3. exact Hlay.
+  - intros a Ha. rewrite Hs3. apply Hnone. exact Ha.
+  - replace (confirmed (st w3)) with (confirmed (st w2)) by (rewrite Hs3; reflexivity).
+    rewrite <- Hlast. exact Hc3.
+  - rewrite Hcp3, Hcp. replace (price (st w3)) with (price (st w2)) by (rewrite Hs3; reflexivity).
+    assert (nr_winning (st w2) <= nr_winning (st w3)).
+    { rewrite Hn3. pose proof (count_winning_le_length (st w2) (range_ids 1 (last_ticket_id (st w2)))) as Hle.
+      rewrite range_ids_length, Hcount in Hle. lia. }
+    nia.
+Qed.
+
+(** ** the two NFT contracts: nft (third stage selectNftWinners) and ngt (third stage
+    secondarySelectionStep = guaranteed tickets, then the NFT draw) *)
+Lemma select_nft_winners_bal b w r w' r' d b' :
+  select_nft_winners H b w r = Ok (w', r', d, b') -> bal w' = bal w.
+Proof.
+  unfold select_nft_winners. intros Hs. apply bind_ok in Hs. destruct Hs as ([[[[[wy ry] uy] sy] dy] by_] & Hrun & Hs).
+  inversion Hs; subst; clear Hs.
+  change (bal (fst (fst (fst (w', r', uy, sy)))) = bal w).
+  eapply (run_invariant (nft_body H _) (fun x => bal (fst (fst (fst x))) = bal w)); [| |exact Hrun].
+  - intros [[[wa ra] ua] sa] [[[wb rb] ub] sb] c Hi Eb. cbn [fst] in *. unfold nft_body in Eb.
+    destruct ((ua =? 0) || (sa =? _)); [inversion Eb; subst; exact Hi|].
+    unfold next_usize_in_range, next_usize in Eb. cbn zeta in Eb.
+    match type of Eb with context [nth_error ?l ?i] => destruct (nth_error l i) end; [|discriminate].
+    inversion Eb; subst. destruct wa; cbn in *. exact Hi.
+  - reflexivity.
+Qed.
+
+Lemma select_nft_endpoint_only e b w w' :
+  op (st w) = OpNone -> select_nft_winners_endpoint H e b w = Ok (w', 0) ->
+  (exists p q cn, st w' = st w <| nft_payers := p |> <| nft_winners := q |> <| fl_additional := true |>
+                                <| claimable_nft := cn |>) /\ bal w' = bal w.
+Proof.
+  intros Hop. unfold select_nft_winners_endpoint. intros E.
+  apply bind_ok in E. destruct E as (u1 & _ & E).
+  apply bind_ok in E. destruct E as (u2 & _ & E).
+  apply bind_ok in E. destruct E as (u3 & _ & E).
+  rewrite Hop in E. cbn [bind] in E. destruct (rng_default w) as [r0 wl] eqn:Er.
+  assert (Hwl : st wl = st w /\ bal wl = bal w).
+  { unfold rng_default in Er. destruct (seeds w); inversion Er; subst; split; reflexivity. }
+  destruct Hwl as [Hwl Hbl].
+  apply bind_ok in E. destruct E as ([[[wx rx] dx] bx] & Hs & E).
+  destruct dx; [|discriminate E]. injection E as Hw'.
+  destruct (select_nft_winners_only H _ _ _ _ _ _ _ Hs) as (p & q & Hx).
+  assert (Hbx : bal wx = bal w) by (rewrite (select_nft_winners_bal _ _ _ _ _ _ _ Hs); cbn; exact Hbl).
+  rewrite st_set_st in Hx.
+  split.
+  - rewrite <- Hw'. unfold set_claimable_nft. rewrite !st_set_st. rewrite Hx, Hwl.
+    exists p, q, (nft_amt (st w) * N.of_nat (length q)). revert Hop. destruct (st w); cbn; intros ->; reflexivity.
+  - rewrite <- Hw'. unfold set_claimable_nft. rewrite !bal_set_st. exact Hbx.
+Qed.
+
+Theorem pipeline_nft l w0 lf wf ef bf w1 ls ws es bs w2 sd rest ln wn en bn w3 :
+  PreSel w0 l -> nft_disjoint w0 ->
+  after_interrupted filter_tickets lf w0 = Some wf -> filter_tickets ef bf wf = Ok (w1, 0) ->
+  seeds w1 = sd :: rest ->
+  after_interrupted (select_winners H) ls w1 = Some ws -> select_winners H es bs ws = Ok (w2, 0) ->
+  after_interrupted (select_nft_winners_endpoint H) ln w2 = Some wn ->
+  select_nft_winners_endpoint H en bn wn = Ok (w3, 0) ->
+  ClaimInv w3 (map fst l) /\ status (st w3) = status (st w2) /\ nr_winning (st w3) = nr_winning (st w2).
+Proof.
+  intros Hpre Hdj Haf Ef Hseeds Has Es Han En.
+  pose proof Hpre as [Hop0 _ _ _ _ _ _ _].
+  destruct (pipeline_postsel l w0 lf wf ef bf w1 ls ws es bs w2 sd rest Hpre Haf Ef Hseeds Has Es)
+    as [Hpay Hlay Hlast Hnone Hop Hdinv Hcount Hcp Hgt].
+  (* the NFT lists are untouched by the first two stages *)
+  assert (Hdj2 : nft_disjoint w2).
+  { assert (Hfok : filter_op_ok (st w0)) by (unfold filter_op_ok; rewrite Hop0; exact I).
+    rewrite (filter_multi_resume lf w0 wf ef bf Hfok Haf) in Ef.
+    destruct (filter_tickets_only _ _ _ _ Ef) as ((rg & ba & nw & la & fs & Hs1) & _).
+    rewrite (select_multi_resume H ls w1 ws es bs Has) in Es.
+    assert (Hop1 : op (st w1) = OpNone) by (rewrite Hs1; reflexivity).
+    destruct (select_winners_only H _ _ _ _ Hop1 Es) as ((f2 & g2 & Hs2) & _).
+    unfold nft_disjoint in *. rewrite Hs2, Hs1. exact Hdj. }
+  rewrite (select_nft_multi_resume H ln w2 wn en bn Hdj2 Han) in En.
+  destruct (select_nft_endpoint_only _ _ _ _ Hop En) as ((p & q & cn & Hs3) & Hb3).
+  split; [|rewrite Hs3; split; reflexivity].
+  apply ClaimInv_from_layout.
+  - eapply PayInv_frame; [exact Hpay| | rewrite Hs3; reflexivity | intros a; rewrite Hs3; reflexivity].
+    rewrite Hb3, Hs3. reflexivity.
+  - rewrite Hs3. exact Hlay.
+  - intros a Ha. rewrite Hs3. apply Hnone. exact Ha.
+  - replace (confirmed (st w3)) with (confirmed (st w2)) by (rewrite Hs3; reflexivity).
+    rewrite <- Hlast. rewrite Hs3. exact Hcount.
+  - rewrite Hs3. exact Hcp.
+Qed.
+
+Lemma secondary_only e b w w' :
+  op (st w) = OpNone -> secondary_selection_step H e b w = Ok (w', 0) ->
+  (exists f g u p q cp nw cn,
+     st w' = st w <| status := f |> <| pos2id := g |> <| gt_users := u |> <| nft_payers := p |> <| nft_winners := q |>
+                  <| fl_additional := true |> <| claimable_payment := cp |> <| nr_winning := nw |>
+                  <| claimable_nft := cn |>) /\ bal w' = bal w.
+Proof.
+  intros Hop. unfold secondary_selection_step. intros E.
+  apply bind_ok in E. destruct E as (u1 & _ & E).
+  apply bind_ok in E. destruct E as (u2 & _ & E).
+  apply bind_ok in E. destruct E as (u3 & _ & E).
+  rewrite Hop in E. destruct (rng_default w) as [r0 wl] eqn:Er. cbn [bind] in E.
+  assert (Hwl : st wl = st w /\ bal wl = bal w).
+  { unfold rng_default in Er. destruct (seeds w); inversion Er; subst; split; reflexivity. }
+  destruct Hwl as [Hwl Hbl].
+  apply bind_ok in E. destruct E as ([[wp orng] bp] & Hph & E).
+  apply bind_ok in Hph. destruct Hph as ([[[wa oa] da] ba] & Hd & Hph).
+  destruct da.
+  2:{ inversion Hph; subst. inversion E. }
+  destruct (rng_default (finish_gt wa oa)) as [rn w3] eqn:Er3. inversion Hph; subst wp orng bp; clear Hph.
+  apply bind_ok in E. destruct E as ([[[wx rx] dx] bx] & Hs & E).
+  destruct dx; [|discriminate E]. injection E as Hw'.
+  destruct (gt_distribution_only false _ _ _ _ _ _ _ Hd) as ((f & g & u & Hsa) & Hba).
+  rewrite st_set_st in Hsa. cbn in Hba.
+  assert (H3 : st w3 = st (finish_gt wa oa) /\ bal w3 = bal wa).
+  { unfold rng_default in Er3. destruct (seeds (finish_gt wa oa)); inversion Er3; subst; split; reflexivity. }
+  destruct H3 as [Hs3 Hb3].
+  destruct (select_nft_winners_only H _ _ _ _ _ _ _ Hs) as (p & q & Hx).
+  pose proof (select_nft_winners_bal _ _ _ _ _ _ _ Hs) as Hbx.
+  split.
+  - rewrite <- Hw'. unfold set_claimable_nft. rewrite !st_set_st. rewrite Hx, Hs3. unfold finish_gt. rewrite st_set_st, Hsa, Hwl.
+    exists f, g, u, p, q, (claimable_payment (st w) + price (st w) * g_additional oa), (nr_winning (st w) + g_additional oa),
+      (nft_amt (st w) * N.of_nat (length q)).
+    revert Hop. destruct (st w); cbn; intros ->; reflexivity.
+  - rewrite <- Hw'. unfold set_claimable_nft. rewrite !bal_set_st. congruence.
+Qed.
+
+Theorem pipeline_ngt l w0 lf wf ef bf w1 ls ws es bs w2 sd rest ld wd ed bd w3 :
+  PreSel w0 l -> NoDup (gt_users (st w0)) -> nft_disjoint w0 ->
+  after_interrupted filter_tickets lf w0 = Some wf -> filter_tickets ef bf wf = Ok (w1, 0) ->
+  seeds w1 = sd :: rest ->
+  after_interrupted (select_winners H) ls w1 = Some ws -> select_winners H es bs ws = Ok (w2, 0) ->
+  after_interrupted (secondary_selection_step H) ld w2 = Some wd ->
+  secondary_selection_step H ed bd wd = Ok (w3, 0) ->
+  ClaimInv w3 (map fst l) /\
+  dist_result false (st w2) (st w3) /\
+  (forall u, In u (gt_users (st w2)) -> owed false (st w2) u <= own_winning (st w2) (st w3) u) /\
+  (forall t, status (st w2) t = true -> status (st w3) t = true).
+Proof.
+  intros Hpre Hndg Hdj Haf Ef Hseeds Has Es Had Ed.
+  pose proof Hpre as [Hop0 _ _ _ _ _ _ _].
+  destruct (pipeline_postsel l w0 lf wf ef bf w1 ls ws es bs w2 sd rest Hpre Haf Ef Hseeds Has Es)
+    as [Hpay Hlay Hlast Hnone Hop Hdinv Hcount Hcp Hgt].
+  assert (Hdj2 : nft_disjoint w2).
+  { assert (Hfok : filter_op_ok (st w0)) by (unfold filter_op_ok; rewrite Hop0; exact I).
+    rewrite (filter_multi_resume lf w0 wf ef bf Hfok Haf) in Ef.
+    destruct (filter_tickets_only _ _ _ _ Ef) as ((rg & ba & nw & la & fs & Hs1) & _).
+    rewrite (select_multi_resume H ls w1 ws es bs Has) in Es.
+    assert (Hop1 : op (st w1) = OpNone) by (rewrite Hs1; reflexivity).
+    destruct (select_winners_only H _ _ _ _ Hop1 Es) as ((f2 & g2 & Hs2) & _).
+    unfold nft_disjoint in *. rewrite Hs2, Hs1. exact Hdj. }
+  pose proof (pi_nodup _ _ Hpay) as HndA.
+  destruct (layout_dist_hyps false (st w2) (map fst l) Hlay HndA Hlast Hnone) as [Hwithin Hsized].
+  assert (Hready : dist_ready false (st w2)).
+  { unfold dist_ready. rewrite Hgt. repeat split; auto. }
+  pose proof (secondary_counts_interrupted H ld w2 wd ed bd w3 Hready Hdj2 Had Ed) as Hres.
+  assert (Hndg2 : NoDup (gt_users (st w2))) by (rewrite Hgt; exact Hndg).
+  destruct (secondary_honours_interrupted H ld w2 wd ed bd w3 Hop Hndg2 Hdj2 Had Ed) as [Hhon Hmono].
+  split; [|split; [exact Hres|split; [exact Hhon|exact Hmono]]].
+  rewrite (secondary_multi_resume H _ _ _ _ _ Hdj2 Had) in Ed.
+  destruct (secondary_only _ _ _ _ Hop Ed) as ((f & g & u & p & q & cp & nw & cn & Hs3) & Hb3).
   destruct Hres as (Hc3 & Hn3 & Hcp3 & Hl3).
   apply ClaimInv_from_layout.
   - eapply PayInv_frame; [exact Hpay| | rewrite Hs3; reflexivity | intros a; rewrite Hs3; reflexivity].
